@@ -363,7 +363,8 @@ def run_app_sequences(ctx):
             except Exception as e:  # noqa
                 ctx.problem('harness', 'request-sequence app could not be built: %r' % (e,))
                 return
-            seqs = [[['broken', 'slow'], ['blue', 'green']], [['slow', 'broken'], ['red', 'yellow'], ['green', 'blue']]]
+            seqs = [[['broken', 'slow'], ['blue', 'green']], [['slow', 'broken'], ['red', 'yellow'], ['green', 'blue']],
+                    [['broken', 'red'], ['yellow', 'broken']], [['broken', 'slow'], ['slow', 'broken'], ['green', 'broken'], ['red', 'blue']]]
             for _ in range(ctx.n(3, 12)):
                 seqs.append([rng.sample(sorted(colours), rng.choice([2, 2, 3])) for _ in range(rng.choice([2, 3]))])
             for seq in seqs:
@@ -389,9 +390,10 @@ def run_app_sequences(ctx):
                 for req_layers, o in zip(seq, obs):
                     rep = {'concurrent_layer_renderer': conc, 'request_sequence': seq, 'answers': obs}
                     if 'broken' in req_layers:
-                        # reported as an error document or (on_source_errors: notify) as a message drawn into the image
-                        if o[0] == 'raised':
-                            ctx.fail('appseq,raised', 'GetMap LAYERS=%s raised %r' % (req_layers, o), rep)
+                        # on_source_errors: raise and no layer is opaque (nothing is pruned): the failure must be reported
+                        if o[0] != 'error':
+                            ctx.fail('appseq,failure-swallowed-or-foreign-result', 'GetMap LAYERS=%s with a failing layer '
+                                     'answered %r instead of an error document' % (req_layers, o), rep)
                     else:
                         want = colours[req_layers[-1]]      # all layers are opaque: the top one shows
                         if o != ('image', want):
